@@ -287,3 +287,24 @@ def placeholder_follow_builder(g, E, do, length):
         if x["op"] == "create" and g.p(0.5):
             y = {"op": "activate", "uid": None}
         do(_req(g, [dict(x), y], ver, bopt=g.ch([1, 1, None])))
+    # [an item that creates an object; an item that FAILS (unknown object, refused transition, denied); an item that
+    # names no identifier] under Continue: the failed item does not disturb the one after it, which still works on
+    # the object the first item created
+    creator = {"op": "create", "otype": 2, "tmpl": {"tnames": 0, "attrs": [
+        _A("Cryptographic Algorithm", "enum", 3), _A("Cryptographic Length", "int", 128),
+        _A("Cryptographic Usage Mask", "int", 12)]}}
+    failing = [
+        {"op": "get", "uid": "9999", "format": None, "compression": False, "wrap": None},
+        {"op": "activate", "uid": K},
+        {"op": "destroy", "uid": K},
+        {"op": "getAttributes", "uid": "31337", "names": []},
+    ]
+    for _ in range(3):
+        c = dict(creator)
+        c["crypto"] = {"k": "ok", "t": hexof(16, rnd=r)}
+        y = g.ch([{"op": "activate", "uid": None}, {"op": "getAttributes", "uid": None, "names": []},
+                  {"op": "get", "uid": None, "format": None, "compression": False, "wrap": None},
+                  {"op": "getAttributeList", "uid": None}])
+        mid = [dict(g.ch(failing)) for _ in range(g.ch([1, 1, 2]))]
+        tail = [dict(y)] + ([{"op": "getAttributeList", "uid": None}] if g.p(0.4) else [])
+        do(_req(g, [c] + mid + tail, ver, bopt=g.ch([1, 1, 1, None, 2])))
